@@ -30,6 +30,8 @@ def __vp_fmt__(kind, lit, *args, **kw):
         return lit % args[0]
     if kind == 'format':
         return lit.format(*args, **kw)
+    if kind == 'join':
+        return lit.join(args[0])
     if kind == 'fstr':
         # args: sequence of str pieces or (value, conversion, spec) tuples
         out = []
@@ -61,6 +63,11 @@ class _T(ast.NodeTransformer):
     def visit_Call(self, node):
         self.generic_visit(node)
         f = node.func
+        if isinstance(f, ast.Attribute) and f.attr == 'join' and isinstance(f.value, ast.Constant) \
+                and isinstance(f.value.value, str) and len(node.args) == 1 and not node.keywords:
+            return ast.copy_location(ast.Call(
+                func=ast.Name('__vp_fmt__', ast.Load()),
+                args=[ast.Constant('join'), f.value, node.args[0]], keywords=[]), node)
         if isinstance(f, ast.Attribute) and f.attr == 'format' and isinstance(f.value, ast.Constant) \
                 and isinstance(f.value.value, str):
             return ast.copy_location(ast.Call(
